@@ -12,14 +12,19 @@
     * a directory extent read back by the reader's loop gives exactly the records laid out;
     * codecs: directory record, both-endian field and path table (L and M) encoders are inverted
       by the decoders.
-  The end-to-end clause (the real reader shows the real tree) is evaluated on the real code by the
-  engine's oracles and by the Lean reader of Model/Iso/Reader on real image bytes; it is not a
-  theorem (see the registration note).
+    * whole image, plain configuration (no Rock Ridge, no Joliet): `pvd_roundtrip`; on any image
+      that shows a tree the reader returns exactly that tree (`reader_walks_tree`); the writes of
+      Finalize placed by the layout are pairwise disjoint (`placement_disjoint`) and therefore read
+      back (`disjoint_writes_read_back`); together: `reader_finds_layout`.
+  The end-to-end clause about the REAL reader and writer (Rock Ridge / Joliet included) is evaluated
+  on the real code by the engine's oracles; the model's image encoder and pure reader are tied to
+  real plain images by the correspondence run (see the registration note).
 -/
 import DiskfsModel.Proofs.IsoNames
 import DiskfsModel.Proofs.IsoLayout
 import DiskfsModel.Proofs.IsoCodec
 import DiskfsModel.Proofs.IsoExtent
+import DiskfsModel.Proofs.IsoImage
 import DiskfsModel.Generated.Iso
 namespace Diskfs.Iso.C06
 
@@ -131,5 +136,121 @@ example : parseExtent 8 7 0 (encodeExtent 8 [[3, 1, 2], [4, 9, 9, 9], [2, 7]]) =
 example : encodeExtent 8 [[3, 1, 2], [4, 9, 9, 9], [6, 7, 7, 7, 7, 7]] = [3, 1, 2, 4, 9, 9, 9, 0, 6, 7, 7, 7, 7, 7] := by decide
 -- the Go rule also pads when a record would end exactly on the block boundary
 example : dirOffsets 2048 [100, 1900, 48, 2000, 48] 0 = [(0, 100), (100, 1900), (2048, 48), (4096, 2000), (6144, 48)] := by decide
+
+/-! ## whole image, plain configuration -/
+
+/-- **pvd_roundtrip.**  The primary volume descriptor decodes from the 2048 bytes `toBytes`
+    produces to the same fields: volume size, set size, sequence number and block size (both-endian,
+    halves agreeing), path table size and the four path table locations (L little-endian, M
+    big-endian), the 34-byte root directory record, the two identifiers and the rest of the sector -/
+theorem pvd_roundtrip (p : PVD) (h : p.WF) : decodePVD (encodePVD p) = some p ∧ (encodePVD p).length = 2048 :=
+  ⟨decode_encodePVD p h, encodePVD_length p h⟩
+
+/-- **the reader walks the tree** (the compositional core of `reader_finds_layout`): on ANY image
+    that shows a well-formed tree — each directory's extent holds `encodeExtent` of its self, parent
+    and children records, each file's extent holds its contents — the reader started on a directory's
+    extent returns exactly the depth-first listing below it: paths made of the stored identifiers,
+    kinds, extents, sizes and file contents.  Built from `dir_extent_roundtrip` (record loop),
+    `dir_record_roundtrip` (every record) and induction over the nesting depth. -/
+theorem reader_walks_tree (img : Dev) (bs : Nat) (hbs : 255 ≤ bs) (t : PTree) (hwf : t.WF) (hh : Holds img bs t)
+    (fuel : Nat) (pre : List Bytes) (d : Nat) (hd : d < t.n) (hdir : (t.ent d).isDir = true) (hfit : t.Fits fuel d) :
+    readDirP img bs fuel pre (t.ent d).loc (t.ent d).size = some (t.walk fuel pre d) :=
+  readDirP_walk img bs hbs t hwf hh fuel pre d hd hdir hfit
+
+/-- writes whose byte ranges are pairwise disjoint all read back as written, whatever their order -/
+theorem disjoint_writes_read_back (d : Dev) (ws : List Wr) (hd : ws.Pairwise WrDisjoint) :
+    ∀ w ∈ ws, readAt (applyWrs d ws) w.off w.data.length = w.data := applyWrs_read_back d ws hd
+
+/-- the sequential placement of Finalize (`location += blocks`, root directory at block 18) is the
+    layout of `layout_disjoint` / `layout_inside` (`seqAlloc` over the pieces' block counts), and it
+    makes all WriteAt calls of a plain image — system area, directory extents, both path tables,
+    file contents with their zero fill, PVD at sector 16, terminator at sector 17 — pairwise
+    disjoint, for every block size of at least 2048 -/
+theorem placement_disjoint (i : ImageIn) (hbs : 2048 ≤ i.bs) (hp : i.pvd.WF) (hpl : i.Placed) :
+    i.writes.Pairwise WrDisjoint ∧
+    i.mid.map (·.off) = (seqAlloc (dataStartSector + 2) ((i.mid.map (·.data)).map fun b => blocksFor b.length i.bs)).map (fun e => e.1 * i.bs) :=
+  ⟨placed_writes_disjoint i hbs hp hpl, by rw [← seqWr_offsets]; exact congrArg _ hpl⟩
+
+/-- **reader_finds_layout** (plain configuration: no Rock Ridge, no Joliet, no El Torito).
+    Take any tree with resolved identifiers whose locations are the ones the layout assigns
+    (`Placed`), write what Finalize writes (`ImageIn.writes`) onto a blank device in that order,
+    and start the reader at sector 16: it returns the primary volume descriptor that was written
+    and the whole tree — every path, kind, extent, size and every file's bytes.
+    Hypotheses, all of them: block size ≥ 2048; the tree is well formed (children and parents are
+    entries, locations and sizes below 2^32, 7-byte dates, identifiers shorter than 222 bytes);
+    the PVD is well formed, carries this block size and the root's self record; entry 0 is a
+    directory; every directory / file of the tree is in the layout lists; a directory's recorded
+    size is the length of its encoded extent and a file's its content length; the locations are
+    `Placed`; the nesting depth is at most `fuel`. -/
+theorem reader_finds_layout (i : ImageIn) (fuel : Nat) (hbs : 2048 ≤ i.bs) (hwf : i.t.WF) (hp : i.pvd.WF)
+    (hpbs : i.pvd.blocksize = i.bs) (hroot : i.pvd.root = i.t.selfRec 0) (h0 : 0 < i.t.n)
+    (hrd : (i.t.ent 0).isDir = true)
+    (hdirs : ∀ d, d < i.t.n → (i.t.ent d).isDir = true → d ∈ i.dirs)
+    (hfiles : ∀ c, c < i.t.n → (i.t.ent c).isDir = false → c ∈ i.files)
+    (hsz : ∀ d ∈ i.dirs, (i.t.ent d).size = (i.t.dirBytes i.bs d).length)
+    (hfsz : ∀ f ∈ i.files, (i.t.ent f).size = (i.t.ent f).content.length)
+    (hpl : i.Placed) (hfit : i.t.Fits fuel 0) :
+    readImageP i.image (16 * i.bs) fuel = some (i.pvd, i.t.walk fuel [] 0) :=
+  reader_on_image i fuel (by omega) hwf hp hpbs hroot h0 hrd hdirs hfiles hsz hfsz
+    (placed_writes_disjoint i hbs hp hpl) hfit
+
+
+/-! non-vacuity of `reader_finds_layout`: a root directory holding one file, 2048-byte blocks -/
+
+private def imDate : Bytes := [126, 1, 1, 0, 0, 0, 0]
+private def imT : PTree :=
+  { n := 2
+    ent := fun i => if i = 0 then { name := [0], isDir := true, loc := 18, size := 104, date := imDate, content := [] }
+                    else { name := [65, 59, 49], isDir := false, loc := 21, size := 3, date := imDate, content := [7, 7, 7] }
+    kids := fun d => if d = 0 then [1] else []
+    parent := fun _ => 0 }
+private def imI : ImageIn :=
+  { t := imT, bs := 2048, dirs := [0], files := [1]
+    pvd := { sysId := zeros 32, volId := zeros 32, volSize := 22, setSize := 1, seqNo := 1, blocksize := 2048, ptSize := 10,
+             ptL := 19, ptLopt := 0, ptM := 20, ptMopt := 0, root := imT.selfRec 0, tail := zeros 1858 }
+    ptLBytes := [1, 0, 18, 0, 0, 0, 1, 0, 0, 0], ptMBytes := [1, 0, 0, 0, 0, 18, 0, 1, 0, 0] }
+
+private theorem imLen : (imT.dirBytes 2048 0).length = 104 := by decide
+
+private theorem imPlaced : imI.Placed := by
+  apply placed_of_offsets
+  simp only [ImageIn.mid, imI, List.map_cons, List.map_nil, List.cons_append, List.nil_append, padBlock_length, imLen]
+  simp [seqAlloc, blocksFor, dataStartSector, imT]
+
+private theorem imWF : imT.WF := by
+  refine ⟨?_, ?_, ?_⟩
+  · intro d hd c hc
+    have : d = 0 ∨ d = 1 := by simp [imT] at hd; omega
+    rcases this with rfl | rfl <;> simp [imT] at hc ⊢
+    omega
+  · intro d _; simp [imT]
+  · intro c hc
+    have : c = 0 ∨ c = 1 := by simp [imT] at hc; omega
+    rcases this with rfl | rfl <;> simp [imT, imDate]
+
+/-- the hypotheses of `reader_finds_layout` are satisfiable: a root directory with one file -/
+example : readImageP imI.image (16 * 2048) 2 = some (imI.pvd, imT.walk 2 [] 0) := by
+  refine reader_finds_layout imI 2 (by decide) imWF ?_ rfl rfl (by decide) rfl ?_ ?_ ?_ ?_ imPlaced ?_
+  · simp [PVD.WF, imI, imT, PTree.selfRec, PTree.recOf, imDate]
+  · intro d hd hdir
+    have : d = 0 ∨ d = 1 := by simp [imI, imT] at hd; omega
+    rcases this with rfl | rfl
+    · simp [imI]
+    · simp [imI, imT] at hdir
+  · intro c hc hf
+    have : c = 0 ∨ c = 1 := by simp [imI, imT] at hc; omega
+    rcases this with rfl | rfl
+    · simp [imI, imT] at hf
+    · simp [imI]
+  · intro d hd
+    simp [imI] at hd; subst hd
+    exact imLen.symm ▸ rfl
+  · intro f hf
+    simp [imI] at hf; subst hf
+    rfl
+  · intro c hc hd
+    simp [imI, imT] at hc; subst hc
+    simp [imI, imT] at hd
+example : imT.walk 2 [] 0 = [{ path := [[65, 59, 49]], isDir := false, loc := 21, size := 3, data := [7, 7, 7] }] := by decide
 
 end Diskfs.Iso.C06
